@@ -532,11 +532,23 @@ class _Inliner(object):
                         x['id'] = self.fresh_id()
                 pre.append(decl)
                 sub[p['d']] = {'k': 'ref', 'd': nd, 'dk': 'local', 'n': p['n'], 'ty': p['ty'], 'id': 0, 'loc': loc}
-        # rename the helper's locals
+        # rename the helper's locals (a name the caller uses as well gets a suffix: many rules identify variables by name)
         ren = {}
+        rename = {}
+        self.nlabel += 1
+        taken = getattr(self, 'caller_names', set())
         for d in H.locals():
             ren[d['d']] = self.fresh_d()
-        self.nlabel += 1
+            if d['n'] in taken:
+                rename[d['d']] = '%s__%s%d' % (d['n'], H.name, self.nlabel)
+        for dd in pre:
+            d0 = dd['decls'][0]
+            if d0['n'] in taken:
+                nn = '%s__%s%d' % (d0['n'], H.name, self.nlabel)
+                for pd_, sv in sub.items():
+                    if sv.get('d') == d0['d'] and sv.get('k') == 'ref':
+                        sv['n'] = nn
+                d0['n'] = nn
         end_label = '__inl%d_%s_end' % (self.nlabel, H.name)
         se = _single_exit(H)
         used_goto = [False]
@@ -573,10 +585,14 @@ class _Inliner(object):
             if 'id' in out:
                 out['id'] = self.fresh_id()
             if k == 'ref' and out.get('d') in ren:
+                if out['d'] in rename:
+                    out['n'] = rename[out['d']]
                 out['d'] = ren[out['d']]
             if 'decls' in out and k == 'decl':
                 for d in out['decls']:
                     if d.get('d') in ren:
+                        if d['d'] in rename:
+                            d['n'] = rename[d['d']]
                         d['d'] = ren[d['d']]
             if k in ('label', 'goto') and 'label' in out:
                 out['label'] = '__inl%d_%s' % (self.nlabel, out['label'])
@@ -763,6 +779,7 @@ def inline_new_helpers(u, known):
                     return [rw(x) for x in node]
                 return node
             before = dict(inl.done)
+            inl.caller_names = {p_['n'] for p_ in f.params} | {d_['n'] for d_ in f.locals()}
             body = rw(f.body)
             if inl.done != before:
                 raw = dict(f.raw)
